@@ -521,7 +521,25 @@ func genStagedCase(t *rapid.T) stagedCase {
 	c.StartGiven = rapid.Bool().Draw(t, "startGiven")
 	c.BaseNs = rapid.SampledFrom(baseInstants).Draw(t, "base")
 	c.Freq = rapid.SampledFrom([]time.Duration{time.Nanosecond, time.Millisecond, 100 * time.Millisecond, time.Second, time.Minute}).Draw(t, "frequency")
-	c.Offsets = genOffsets(t, newModel(st))
+	m := newModel(st)
+	c.Offsets = genOffsets(t, m)
+	if c.StartGiven && n > 1 && rapid.IntRange(0, 3).Draw(t, "lateFirstQuery") == 0 {
+		// the first query comes late: whole stages are skipped in one call
+		from := m.S[rapid.IntRange(1, n).Draw(t, "lateStage")] + int64(rapid.IntRange(-1, 1).Draw(t, "lateDelta"))
+		kept := []int64{}
+		for _, o := range c.Offsets {
+			if o >= from {
+				kept = append(kept, o)
+			}
+		}
+		if len(kept) == 0 {
+			if from < 0 {
+				from = 0
+			}
+			kept = append(kept, from)
+		}
+		c.Offsets = kept
+	}
 	if !c.StartGiven {
 		// the first query IS the start
 		c.Offsets = append([]int64{0}, c.Offsets...)
